@@ -45,6 +45,19 @@ def _configs(tier, rng_choice):
 
 
 def generate(rng, index, tier):
+    if index % 601 == 31:
+        n = worlds.dict_size(rng, 70000) or 3000
+        if (index // 601) % 2 == 0:
+            # thread 700 announces a process, then a named count of other threads announce theirs, then 700's name arrives
+            first = {'tid': 700, 'ops': [worlds.op_exec(rng, 77, 'child'), {'k': 'sys', 'name': 'BSC_getpid', 's': [0, 0, 0, 0], 'e': [0, 5, 0, 0], 'in': []}]}
+            crowd = [{'tid': 100000 + i, 'ops': [{'k': 'one', 'name': 'TRACE_DATA_EXEC', 'q': 0, 'a': [200000 + i, 0, 0, 0]}]} for i in range(n)]
+            dump = {'threads': [first] + crowd, 'schedule': [0] + [1] * n + [0] * 3, 't0': 0x100001,
+                    'writer': {'version': 2, 'tmap': [[700, 77, 'parent', '']], 'pad': 0}}
+        else:
+            # a thread map with a named count of entries; the thread that emits is declared by the very last entry
+            dump = {'threads': [{'tid': 700, 'ops': [{'k': 'sys', 'name': 'BSC_getpid', 's': [0, 0, 0, 0], 'e': [0, 5, 0, 0], 'in': []}]}], 'schedule': [], 't0': 0x100001,
+                    'writer': {'version': 2, 'tmap': [[100000 + i, 5000 + i % 50, 'p%d' % (i % 50), ''] for i in range(n)] + [[700, 77, 'last', '']], 'pad': 0}}
+        return {'dump': dump, 'colour_lines': 2, 'wallclock': False, 'all64': False, 'cli': False, 'big': n}
     nthreads = rng.randint(2, 4)
     tids = [700 + 9 * i + rng.randrange(5) for i in range(nthreads)]
     if rng.chance(0.25):
@@ -77,7 +90,7 @@ def generate(rng, index, tier):
             elif r < 0.9:
                 target = rng.pick(tids)
                 nfr = rng.randint(1, 5)
-                ops.append(worlds.op_sample(rng, flags=9, thd=(rng.pick([pids[target], 61000 + rng.randrange(5), (1 << 64) - 1, 0xffffffff, 0]), target),
+                ops.append(worlds.op_sample(rng, flags=rng.pick([9, 9, 1, 8, 0xa, 0x108, 0x208, 0x1008, 0x3fff, 0x2, 0x100]), thd=(rng.pick([pids[target], 61000 + rng.randrange(5), (1 << 64) - 1, 0xffffffff, 0]), target),
                                             uhdr=(1, nfr), udata=[[rng.randrange(1, 1 << 40) for _ in range(4)] for _ in range(2)]))
             elif r < 0.94:
                 # a thread-terminate record naming a (declared or undeclared) simulated thread: not a map-updating record
@@ -187,6 +200,8 @@ def execute(scn):
     def bump(k, v=1):
         stats[k] = stats.get(k, 0) + v
     cfgs = _configs('thorough' if scn.get('all64') else 'quick', None)
+    if scn.get('big'):
+        cfgs = [[True] * 6, [False] * 6] + [[j == i for j in range(6)] for i in range(6)]
     if len(cfgs) == 64:
         bump('probe:all_64_configs')
     if scn.get('wallclock'):
@@ -220,6 +235,9 @@ def execute(scn):
             viols.append({'tag': tag, 'sig': sig, 'detail': detail})
     kinds_api = [('kevents', lambda p, rd: p.formatted_kevents(rd, table)), ('traces', lambda p, rd: p.formatted_traces(rd, table)),
                  ('callstacks', lambda p, rd: p.formatted_callstacks(rd, table))]
+    if scn.get('big'):
+        kinds_api = kinds_api[1:2]
+        bump('big_capture')
     if dump['writer']['version'] == 3:
         kinds_api.append(('logs', lambda p, rd: p.formatted_logs(rd)))
     states, upd_kinds = _tables_states(dump['writer'].get('tmap', []), stream, table)
